@@ -50,7 +50,7 @@ def run(ctx):
     kinds = {}
     for c in cases:
         kinds[c["kind"]] = kinds.get(c["kind"], 0) + 1
-    an, acases = ag.run(ctx, ['rlissuer', 'ecdsa'])   # Ages.tla: every schedule of phases on one long-lived object, each phase scaled to n operations
+    an, acases = ag.run(ctx, ['rlissuer', 'ecdsa', 't5issue', 't1verify', 'attester', 'batchissuer', 'keyid'], retain=True)   # Ages.tla: every schedule of phases on one long-lived object, each phase scaled to n operations
     return ctx.finish({
         **ag.coverage(an, acases),
         "traces_validated_against_impl": len(cases),
